@@ -17,8 +17,11 @@ import gen
 
 RULE = ("architectures nv,nh,na in 1..3 (quick: covering subset incl. nh != nv, na != nv, size-1 dims) / 1..4 all 64 "
         "shapes (thorough); parameter draws from the mixture in harness/gen.py with every bias non-zero and the phase "
-        "net's auxiliary bias 0; all pairs (sigma, sigma') of basis states; call forms rho(space,space), "
-        "rho(v,vp,expand=False), 1-D single element, rho(v,expand=False); a case is (nv, nh, na, parameter draw); "
+        "net's auxiliary bias 0, in three regimes: default (|bias| <~ 4), large_bias (bias magnitudes up to 30), branch "
+        "(phase-net U of magnitude pi..9, so 1 + exp(z_k) visits the left half-plane); the basis is enumerated "
+        "independently (itertools.product); all pairs (sigma, sigma') of basis states; call forms rho(space,space), "
+        "rho(space) with default vp, rho(v,vp,expand=False), 1-D single element, rho(v) 1-D, rho(v,expand=False); "
+        "probability(space), probability(space, Z); a case is (regime, nv, nh, na, parameter draw); "
         "non-trivial := all biases non-zero, amplitude aux bias != 0 and U_mu != 0")
 ASSUMPTIONS = ["torch exp/log/sqrt/atan2/softplus/logsumexp/matmul implement the real functions up to rounding",
                "parameter draws avoid the measure-zero singular points 1 + exp(z_k) = 0 of the code's log/atan2 "
@@ -67,8 +70,8 @@ def evaluate(ctx, s, am, ph, case, nontriv, desc):
     import torch
     m = ctx.get_model()
     nv, na = len(am[2]), len(am[4])
-    space = s.generate_hilbert_space()
-    sp = space.numpy()
+    sp = gen.all_states(nv)                             # independent enumeration (itertools.product), row i = binary of i
+    space = torch.tensor(sp, dtype=torch.double)
     N = len(sp)
     logp, phi, A = purified_state(am, ph, sp)
     Uam = am[1]
@@ -77,6 +80,14 @@ def evaluate(ctx, s, am, ph, case, nontriv, desc):
         ctx.count("skipped_overflow")
         return
     ctx.case(desc, nontrivial=nontriv)
+    xk = 0.5 * ((sp @ Uam.T + am[4])[:, None, :] + (sp @ Uam.T + am[4])[None, :, :])
+    yk = 0.5 * ((sp @ ph[1].T)[:, None, :] - (sp @ ph[1].T)[None, :, :])
+    if np.any(1 + np.exp(xk) * np.cos(yk) < 0):
+        ctx.count("pi_arg_in_left_half_plane")           # atan2 leaves the range of atan here
+    if np.any(np.abs(yk) > math.pi / 2):
+        ctx.count("phase_arg_beyond_pi_over_2")
+    if max(np.max(np.abs(x)) for x in (am[2], am[3], am[4], ph[2], ph[3])) > 10:
+        ctx.count("bias_magnitude_above_10")
     ctx.count("shape:%dx%dx%d" % (nv, len(am[3]), na))
 
     ii, jj = np.divmod(np.arange(N * N), N)
@@ -87,15 +98,16 @@ def evaluate(ctx, s, am, ph, case, nontriv, desc):
         s.pi(space, space), s.pi(V, VP, expand=False),
         rb_am.gamma(space, space, eta=+1), rb_ph.gamma(space, space, eta=-1),
         rb_am.gamma(V, VP, eta=+1, expand=False), rb_ph.gamma(V, VP, eta=-1, expand=False),
-        s.probability(space), s.normalization(space)))
+        s.probability(space), s.normalization(space), s.rho(space)))
     if not ok:
         return
-    R, Rv, Rd, P, Pv, Gp, Gm, Gpv, Gmv, prob, Z = out
+    R, Rv, Rd, P, Pv, Gp, Gm, Gpv, Gmv, prob, Z, Rdef = out
     shapes_ok = (list(R.shape) == [2, N, N] and list(Rv.shape) == [2, N * N] and list(Rd.shape) == [2, N]
                  and list(P.shape) == [2, N, N] and list(Pv.shape) == [2, N * N]
-                 and list(Gp.shape) == [N, N] and list(Gm.shape) == [N, N] and list(prob.shape) == [N])
+                 and list(Gp.shape) == [N, N] and list(Gm.shape) == [N, N] and list(prob.shape) == [N]
+                 and list(Rdef.shape) == [2, N, N])
     ctx.require("result shapes of rho / pi / gamma / probability", shapes_ok, case,
-                [list(x.shape) for x in (R, Rv, Rd, P, Pv, Gp, Gm, prob)])
+                [list(x.shape) for x in (R, Rv, Rd, P, Pv, Gp, Gm, prob, Rdef)])
     if not shapes_ok:
         return
 
@@ -112,6 +124,8 @@ def evaluate(ctx, s, am, ph, case, nontriv, desc):
     Rc, Rvc, Rdc = cnp(R), cnp(Rv), cnp(Rd)
     un = lambda z: [np.real(z).tolist(), np.imag(z).tolist()]
     ctx.agree("rho(space,space) / |rho_model|", un(Rc / amp), un(mRc / amp), case, rtol=0, atol=1e-7, scale=1.0)
+    Rdefc = cnp(Rdef)
+    ctx.agree("rho(space) [default vp] / |rho_model|", un(Rdefc / amp), un(mRc / amp), case, rtol=0, atol=1e-7, scale=1.0)
     mRvc = np.array(m_Rv)[:, 0] + 1j * np.array(m_Rv)[:, 1]
     ctx.agree("rho(v,vp,expand=False) / |rho_model|", un(Rvc / amp.ravel()), un(mRvc / amp.ravel()), case, rtol=0, atol=1e-7, scale=1.0)
     mP = np.array(m_P)
@@ -128,9 +142,14 @@ def evaluate(ctx, s, am, ph, case, nontriv, desc):
     ctx.agree("normalization(space)", Z, m_Z, case, atol=0)
     ctx.agree("rho(v, expand=False) diagonal shortcut", Rd.numpy().T, m_diag, case, atol=0)
     Zf = float(Z)
-    ok, pz = ctx.call("probability(space, Z)", case, lambda: s.probability(space, Zf))
-    if ok:
-        ctx.agree("probability(space, Z)", pz, m.call("dm_probability", *am, sp, Zf), case, atol=0)
+    Zr = float(np.exp(ctx.rng.uniform(np.log(0.05), np.log(50.0))))
+    pzs = None
+    okz, pzs = ctx.call("probability(space, Z)", case, lambda: (
+        s.probability(space, Zf), s.probability(space, Z=Zr), s.probability(space[N - 1], Zr)))
+    if okz:
+        pz, pr, pr1 = pzs
+        ctx.agree("probability(space, Z=normalization)", pz, m.call("dm_probability", *am, sp, Zf), case, atol=0)
+        ctx.agree("probability(space, Z=random)", pr, m.call("dm_probability", *am, sp, Zr), case, atol=0)
     # effective energies of both networks, auxiliary units traced / given (all (sigma, a) combinations)
     VVn, AAn = np.repeat(sp, len(A), axis=0), np.tile(A, (N, 1))
     VV, AA = torch.tensor(VVn, dtype=torch.double), torch.tensor(AAn, dtype=torch.double)
@@ -173,6 +192,14 @@ def evaluate(ctx, s, am, ph, case, nontriv, desc):
     ok, d1 = ctx.call("rho(v, expand=False) 1-D", case, lambda: s.rho(space[N - 1], expand=False))
     if ok:
         ctx.agree("rho(v, expand=False) 1-D diagonal shortcut", d1.numpy().ravel(), m_diag[N - 1], case, atol=0)
+    i0 = int(ctx.rng.integers(0, N))
+    ok, d1def = ctx.call("rho(v) 1-D, default vp", case, lambda: s.rho(space[i0]))
+    d1def_ok = ok and list(d1def.shape) == [2]
+    if ok:
+        ctx.require("rho(v) 1-D with default vp returns a single complex element", d1def_ok, case, list(d1def.shape))
+    if d1def_ok:
+        ctx.agree("rho(v) 1-D, default vp / |rho_model|", [float(d1def[0]) / amp[i0, i0], float(d1def[1]) / amp[i0, i0]],
+                  [mR[i0, i0, 0] / amp[i0, i0], mR[i0, i0, 1] / amp[i0, i0]], case, rtol=0, atol=1e-7, scale=1.0)
 
     # ---------------- property oracle on the implementation's own outputs
     prob_n = prob.numpy()
@@ -192,6 +219,15 @@ def evaluate(ctx, s, am, ph, case, nontriv, desc):
     ctx.require("trace of rho == normalization(space)", math.isclose(tr, float(Z), rel_tol=RT), case, {"trace": tr, "Z": float(Z)})
     ctx.require("normalization(space) == sum of probability(space)", math.isclose(float(Z), float(prob_n.sum()), rel_tol=RT), case,
                 {"Z": float(Z), "sum": float(prob_n.sum())})
+    # probability(v, Z) divides the unnormalised probability by Z; with Z = normalization(space) it sums to one
+    if okz and pzs is not None:
+        pz_n, pr_n = pzs[0].numpy(), pzs[1].numpy()
+        ctx.require("probability(space, Z) == probability(space) / Z",
+                    bool(np.allclose(pz_n, prob_n / Zf, rtol=1e-9, atol=0) and np.allclose(pr_n, prob_n / Zr, rtol=1e-9, atol=0)
+                         and math.isclose(float(pzs[2]), prob_n[N - 1] / Zr, rel_tol=1e-9)), case,
+                    {"Z": Zf, "Z_random": Zr, "p(space,Z)": pz_n.tolist(), "p(space,Zr)": pr_n.tolist(), "p(space)": prob_n.tolist()})
+        ctx.require("probability(space, normalization(space)) sums to one", math.isclose(float(pz_n.sum()), 1.0, rel_tol=RT), case,
+                    {"sum": float(pz_n.sum())})
     # brute-force partial trace over the auxiliary units of the purified state
     Psi = np.exp(0.5 * logp + 1j * phi)                                  # (N, 2^na)
     bf = Psi @ Psi.conj().T
@@ -215,6 +251,12 @@ def evaluate(ctx, s, am, ph, case, nontriv, desc):
                 {"worst": float(np.max(np.abs(Rvc.reshape(N, N) - Rc) / sc))})
     ctx.require("rho(v, expand=False) == diagonal of rho(space,space)", bool(np.all(np.abs(Rdc - dg) <= RT * np.abs(dg))), case,
                 {"shortcut": [str(z) for z in Rdc], "diag": [str(z) for z in dg]})
+    ctx.require("rho(space) with default vp == rho(space, space)", bool(np.all(np.abs(Rdefc - Rc) <= tolm)), case,
+                {"worst": float(np.max(np.abs(Rdefc - Rc) / sc))})
+    if d1def_ok:
+        ctx.require("rho(v) 1-D with default vp == diagonal entry of rho(space,space)",
+                    abs(complex(d1def[0], d1def[1]) - Rc[i0, i0]) <= tolm[i0, i0], case,
+                    {"i": i0, "rho(v)": str(complex(d1def[0], d1def[1])), "matrix": str(Rc[i0, i0])})
     for (i, j), (z1, z1f) in singles.items():
         ctx.require("single element rho(v,vp) == entry [i][j] of rho(space,space)",
                     abs(z1 - Rc[i, j]) <= tolm[i, j] and abs(z1f - Rc[i, j]) <= tolm[i, j], case,
@@ -230,14 +272,43 @@ def build(nv, nh, na, am, ph):
     return s
 
 
-def one_case(ctx, nv, nh, na, zero_bias=False):
+def log_uniform_signed(ctx, n, lo, hi):
+    return np.exp(ctx.rng.uniform(np.log(lo), np.log(hi), size=n)) * ctx.rng.choice([-1.0, 1.0], size=n)
+
+
+def draw_params(ctx, nv, nh, na, regime):
+    """default: gen.prbm_params (biases |.| <~ 4).  large_bias: a random non-empty subset of every bias vector is
+    replaced by magnitudes log-uniform in [3, 30] (the quantifier's 0..~30).  branch: phase-net U weights of
+    magnitude [pi, 9] and a positive amplitude aux bias, so that |U_ph.(s-s')/2| > pi/2 and 1 + e^x cos y < 0 occur
+    (atan2 outside the range of atan).  The phase net's auxiliary bias stays 0 (documented value)."""
+    am = list(gen.prbm_params(ctx, nv, nh, na))
+    ph = list(gen.prbm_params(ctx, nv, nh, na, phase=True))
+    if regime == "large_bias":
+        for vec in (am[2], am[3], am[4], ph[2], ph[3]):
+            k = int(ctx.rng.integers(1, len(vec) + 1))
+            idx = ctx.rng.choice(len(vec), size=k, replace=False)
+            vec[idx] = log_uniform_signed(ctx, k, 3.0, 30.0)
+    elif regime == "branch":
+        ph[1] = ctx.rng.uniform(math.pi, 9.0, size=(na, nv)) * ctx.rng.choice([-1.0, 1.0], size=(na, nv))
+        am[4] = ctx.rng.uniform(0.5, 3.0, size=na)
+        am[1] = np.abs(am[1]) + 0.1
+    return tuple(am), tuple(ph)
+
+
+REGIMES_QUICK = ["default", "large_bias", "branch", "default", "large_bias", "branch"]
+REGIMES_THOROUGH = ["default", "large_bias", "branch", "default"]
+
+
+def one_case(ctx, nv, nh, na, zero_bias=False, regime="default"):
+    ctx.count("regime:" + ("zero_bias" if zero_bias else regime))
     if zero_bias:                                       # fresh-initialisation regime of the test-suite
         am = (gen.rand_values(ctx, (nh, nv)), gen.rand_values(ctx, (na, nv)), np.zeros(nv), np.zeros(nh), np.zeros(na))
         ph = (gen.rand_values(ctx, (nh, nv)), gen.rand_values(ctx, (na, nv)), np.zeros(nv), np.zeros(nh), np.zeros(na))
         s = build(nv, nh, na, am, ph)
     else:
-        s, am, ph = gen.make_dm(ctx, nv, nh, na)
-    case = {"nv": nv, "nh": nh, "na": na, "am": gen.plist(*am), "ph": gen.plist(*ph)}
+        am, ph = draw_params(ctx, nv, nh, na, regime)
+        s = build(nv, nh, na, am, ph)
+    case = {"regime": regime, "nv": nv, "nh": nh, "na": na, "am": gen.plist(*am), "ph": gen.plist(*ph)}
     nontriv = (not zero_bias) and all(bool(np.all(x != 0)) for x in (am[2], am[3], am[4], ph[2], ph[3])) and bool(np.any(ph[1] != 0))
     desc = {"nv": nv, "nh": nh, "na": na, "U_am00": float(am[1][0, 0]), "d_am0": float(am[4][0]), "U_ph00": float(ph[1][0, 0]), "b_ph0": float(ph[2][0])}
     if nontriv:
@@ -250,7 +321,8 @@ def run(ctx):
     for (nv, nh, na) in shapes(ctx):
         for d in range(draws):
             ctx.torch_seed()
-            one_case(ctx, nv, nh, na)
+            regs = REGIMES_THOROUGH if ctx.thorough else REGIMES_QUICK
+            one_case(ctx, nv, nh, na, regime=regs[d % len(regs)])
     one_case(ctx, 2, 2, 2, zero_bias=True)
     one_case(ctx, 3, 1, 2, zero_bias=True)
 
@@ -262,7 +334,7 @@ def search(ctx, broken, budget):
     n0 = len(ctx.failures)
     for rnd in range(6):
         for (nv, nh, na) in [(a, b, c) for a in range(1, 4) for b in range(1, 4) for c in range(1, 4)]:
-            one_case(ctx, nv, nh, na)
+            one_case(ctx, nv, nh, na, regime=REGIMES_QUICK[rnd % len(REGIMES_QUICK)])
             if len(ctx.failures) > n0:
                 return ctx.failures[n0]
             if time.time() - t0 > budget:
